@@ -32,9 +32,15 @@ type caseC18 struct {
 	// flag is set and its zero-length field is on the wire.
 	Lone     string `json:"lone,omitempty"`
 	FlagOnly bool   `json:"flag_only,omitempty"`
+	// Staged (API only): the packet is first built with short placeholder
+	// credentials, then the other text fields are set again and finally the
+	// real credentials replace the placeholders (a client that fills in the
+	// token just before connecting).
+	Staged bool `json:"staged,omitempty"`
 }
 
 func renderBoth(m model.Packet, user, pass []byte, wire bool, flagOnly ...bool) (dump, str string, err error) {
+	staged := len(flagOnly) > 1 && flagOnly[1]
 	m.Username, m.HasUsername = string(user), len(user) > 0
 	m.Password, m.HasPassword = append([]byte(nil), pass...), len(pass) > 0
 	if wire && len(flagOnly) > 0 && flagOnly[0] {
@@ -48,6 +54,28 @@ func renderBoth(m model.Packet, user, pass []byte, wire bool, flagOnly ...bool) 
 			return "", "", fmt.Errorf("decode failed: %v %v", e, pan)
 		}
 		p = q
+	} else if staged {
+		ph := m.Clone()
+		if len(user) > 0 {
+			ph.Username = "u"
+		}
+		if len(pass) > 0 {
+			ph.Password = []byte("p")
+		}
+		if pan := guard.Call(func() {
+			p = api.BuildDefault(&ph)
+			byName := map[string]api.Setter{}
+			for _, st := range api.Setters(model.CONNECT) {
+				byName[st.Name] = st
+			}
+			for _, name := range []string{"SetClientID", "SetAuthMethod", "SetUsername", "SetPassword"} {
+				if st, ok := byName[name]; ok && (st.IsZero == nil || !st.IsZero(&m)) {
+					st.Apply(p, &m, 0)
+				}
+			}
+		}); pan != nil {
+			return "", "", fmt.Errorf("building panicked: %v", pan.Value)
+		}
 	} else {
 		p = api.BuildDefault(&m)
 	}
@@ -76,11 +104,11 @@ func checkC18(c caseC18) (sig, msg string) {
 	case "pass":
 		c.UserA, c.UserB = nil, nil
 	}
-	d1, s1, err := renderBoth(m.Clone(), c.UserA, c.PassA, c.Wire, c.FlagOnly)
+	d1, s1, err := renderBoth(m.Clone(), c.UserA, c.PassA, c.Wire, c.FlagOnly, c.Staged)
 	if err != nil {
 		return "render", err.Error()
 	}
-	d2, s2, err := renderBoth(m.Clone(), c.UserB, c.PassB, c.Wire, c.FlagOnly)
+	d2, s2, err := renderBoth(m.Clone(), c.UserB, c.PassB, c.Wire, c.FlagOnly, c.Staged)
 	if err != nil {
 		return "render", err.Error()
 	}
@@ -118,6 +146,14 @@ func TestC18(t *testing.T) {
 		o := gen.Opts{WellFormed: true, SpecValid: true, NoHuge: true}
 		m := gen.Packet(t, model.CONNECT, o)
 		m.Username, m.HasUsername, m.Password, m.HasPassword = "", false, nil, false
+		if rapid.IntRange(0, 3).Draw(t, "authdict") == 0 {
+			// registered SASL mechanism names and other method names in use:
+			// code may know some of them
+			m.AuthMethod = rapid.SampledFrom([]string{"PLAIN", "LOGIN", "SCRAM-SHA-1", "SCRAM-SHA-256", "SCRAM-SHA-512", "OAUTHBEARER", "XOAUTH2", "EXTERNAL", "ANONYMOUS", "CRAM-MD5", "DIGEST-MD5", "GSSAPI", "GS2-KRB5", "NTLM", "plain", "digest", "jwt", "K8S-SAT", "Basic", "Bearer"}).Draw(t, "authmethod")
+			if rapid.Bool().Draw(t, "noauthdata") {
+				m.AuthData = nil
+			}
+		}
 		// candidate secrets: fresh values, or copies of other field contents
 		others := []string{m.ClientID, m.AuthMethod, string(m.AuthData)}
 		for _, kv := range m.UserProps {
@@ -171,6 +207,7 @@ func TestC18(t *testing.T) {
 		c := caseC18{ModelGob: packModel(m), Model: m.String(), UserA: ua, UserB: ub, PassA: pa, PassB: pb, Wire: wire}
 		c.Lone = rapid.SampledFrom([]string{"", "", "", "user", "pass"}).Draw(t, "lone")
 		c.FlagOnly = wire && c.Lone != "" && rapid.Bool().Draw(t, "flagonly")
+		c.Staged = !wire && rapid.IntRange(0, 2).Draw(t, "staged") == 0
 		sig, msg := checkC18(c)
 		differ := !bytes.Equal(ua, ub) || !bytes.Equal(pa, pb)
 		class := "fresh-secrets"
@@ -185,7 +222,10 @@ func TestC18(t *testing.T) {
 		if c.Lone != "" {
 			class += "/only-" + c.Lone
 		}
-		r.Case(vf.FPs(c.ModelGob, string(ua), string(ub), string(pa), string(pb), fmt.Sprint(wire, c.Lone, c.FlagOnly)), differ, class, func() interface{} {
+		if c.Staged {
+			class += "/placeholders-first"
+		}
+		r.Case(vf.FPs(c.ModelGob, string(ua), string(ub), string(pa), string(pb), fmt.Sprint(wire, c.Lone, c.FlagOnly, c.Staged)), differ, class, func() interface{} {
 			return map[string]interface{}{"model": m.String(), "user": []string{string(ua), string(ub)}, "password": []string{string(pa), string(pb)}, "wire": wire}
 		})
 		if msg != "" {
